@@ -417,6 +417,11 @@ def handleTxenc (t : String) : String :=
   | none => "bad-op"
   | some tx => s!"bytes {hexOrDash (Stdcode.encodeTx tx)}"
 
+def handleHdrenc (t : String) : String :=
+  match parseHeader t with
+  | none => "bad-op"
+  | some h => s!"bytes {hexOrDash (Stdcode.encodeHeader h)}"
+
 def handleTxlen (t : String) : String :=
   match parseTx t with
   | none => "bad-op"
@@ -434,6 +439,7 @@ def handleLine (w : DWorld) (line : String) : DWorld × String :=
   | ["powd", h] => (w, handlePowd h)
   | ["txlen", t] => (w, handleTxlen t)
   | ["txenc", t] => (w, handleTxenc t)
+  | ["hdrenc", t] => (w, handleHdrenc t)
   | ["env", tx, cid, cdh, idx, hdr] => (w, handleEnv tx cid cdh idx hdr)
   | ["reset"] => ({}, "ok")
   | ["mt", name, entries] => handleMt w name entries
